@@ -160,6 +160,7 @@ def in_range(t, ty):
 ENUM_STD = {
     "Option": ["None", "Some"], "Result": ["Ok", "Err"], "ControlFlow": ["Continue", "Break"],
     "Ordering": ["Less", "Equal", "Greater"], "Sign": ["Minus", "NoSign", "Plus"],
+    "Entry": ["Vacant", "Occupied"],        # std::collections::btree_map::Entry / hash_map::Entry (declaration order)
 }
 ENUM_DISCR = {"Ordering": {"Less": -1, "Equal": 0, "Greater": 1}}
 
